@@ -572,9 +572,12 @@ class World:
         ex = LocalFdExecutor(iid='1', work_queue=StepQueue(self), flags=self.flags, event_queue=None)
         self.executor = ex
         try:
-            ex.run()
+            with _Watchdog(self):
+                ex.run()
         except BaseException as e:     # run() itself raising also means the worker is gone
-            self.exceptions.append(('run', '%s: %s' % (type(e).__name__, e)))
+            self.exceptions.insert(0, ('run', '%s: %s' % (type(e).__name__, e)))
+            if isinstance(e, Hung):
+                self.ended_by_script = False
         finally:
             CURRENT = None
         return self
@@ -643,6 +646,56 @@ def make_flags(argv: Optional[List[str]] = None, **opts: Any) -> Any:
 # threaded mode: the real HttpProtocolHandler.run() (own selector, blocking _flush() in shutdown())
 # executed in the harness thread; the handler's selector is replaced by a stepping wrapper.
 
+class Hung(BaseException):
+    """Raised by the per-run watchdog: the loop under test sat in one blocking call for WALL_LIMIT seconds."""
+
+
+WALL_LIMIT = float(os.environ.get('VF_CASE_WALL_LIMIT', '60'))
+
+
+class _Watchdog:
+    """A run normally takes milliseconds.  If the (single-threaded) loop under test blocks - e.g. a blocking
+    handshake or connect inside the event loop with nobody to answer - the run would never return.  After
+    WALL_LIMIT seconds of wall clock without a single harness step the run is aborted and reported as a dead
+    worker ('Hung'), because every connection that worker serves is stalled with it."""
+
+    def __init__(self, world: 'World') -> None:
+        self.world = world
+        self.old: Any = None
+        self.last_iter = -1
+
+    def _fire(self, signum: int, frame: Any) -> None:
+        import signal
+        if self.world.iter != self.last_iter:      # still stepping: not blocked, re-arm
+            self.last_iter = self.world.iter
+            signal.setitimer(signal.ITIMER_REAL, WALL_LIMIT)
+            return
+        where = '?'
+        f = frame
+        while f is not None:
+            fn = f.f_code.co_filename
+            if '/proxy/' in fn and '/vf/' not in fn:
+                where = '%s:%d' % (fn.split('/proxy/', 1)[1], f.f_lineno)
+                break
+            f = f.f_back
+        raise Hung(where)
+
+    def __enter__(self) -> '_Watchdog':
+        import signal
+        import threading
+        if threading.current_thread() is threading.main_thread():
+            self.old = signal.signal(signal.SIGALRM, self._fire)
+            signal.setitimer(signal.ITIMER_REAL, WALL_LIMIT)
+        return self
+
+    def __exit__(self, *a: Any) -> None:
+        import signal
+        import threading
+        if threading.current_thread() is threading.main_thread():
+            signal.setitimer(signal.ITIMER_REAL, 0)
+            signal.signal(signal.SIGALRM, self.old or signal.SIG_DFL)
+
+
 class StopRun(BaseException):
     """Raised out of the stepping selector to end a threaded run at quiescence / budget."""
 
@@ -694,7 +747,8 @@ def _run_threaded(self: World, client_name: str) -> World:
     work.selector = SteppingSelector(work.selector, self)
     self.run_returned = False
     try:
-        work.run()
+        with _Watchdog(self):
+            work.run()
         self.run_returned = True
     except StopRun:
         pass
